@@ -234,9 +234,11 @@ REGISTRY = {
     },
     'C09': {
         'theorems': ['PP.C09.comment_inert', 'PP.C09.trailing_adds_comma', 'PP.Tok.comment_inert', 'PP.C03.output_tokens',
+                     'PP.C09.comments_do_not_change_the_reading', 'PP.C09.erase_bare', 'PP.Tok.canon_reads',
                      'PP.C04.sound_pformat', 'PP.C09.commentdoc_lines', 'PP.C09.empty_comment_ignored'],
         'modules': VALUE_MODULES + ['PP.Props.Values', 'PP.Spec.Tokens', 'PP.Proofs.Toks', 'PP.Proofs.ToksStr', 'PP.Proofs.ToksComb', 'PP.Proofs.ToksVal',
-                                    'PP.Proofs.Shown', 'PP.Proofs.Comments', 'PP.Props.C03', 'PP.Props.C09b'],
+                                    'PP.Proofs.Shown', 'PP.Proofs.Comments', 'PP.Props.C03', 'PP.Props.C09b', 'PP.Spec.Reader', 'PP.Proofs.ReaderRT', 'PP.Props.C01b',
+                                    'PP.Props.C09c'],
         'sections': [{'name': 'comments', 'run': values_sec('comments_section')},
                      {'name': 'fresh-interpreter', 'run': values_sec('fresh_comment_section')},
                      {'name': 'tokens', 'run': values_sec('tokens_section')}],
